@@ -13,8 +13,9 @@ The region is resolved against the solved network inside `check` (regions()):
   "outer"    : boundary = neighbours of the ball outside, internal = the ball
   "prune"    : boundary buses without a neighbour in the external area are left to the internal area (a frontier bus has
                neighbours on both sides); False only in mode detached-boundary
-  "close"    : the boundary handed over is closed under closed bus-bus switches (what the log message of get_equivalent
-               suggests); the expected bus groups are computed with the closure in both cases (get_equivalent does the same)
+  "close"    : the boundary handed over is closed under closed bus-bus switches WITHOUT impedance (one busbar; what the log
+               message of get_equivalent suggests); the expected bus groups are computed with this closure in both cases. A
+               bus behind a closed switch with z_ohm > 0 is an ordinary neighbour (branch c28-fixes-b)
   "give"     : all internal buses or only the seed are handed over ("Just one of them is enough"); expected internal
                area = components of graph - boundary that contain a given bus
   external slack buses become boundary buses when neither the internal area nor the boundary holds a slack (as in
@@ -44,18 +45,21 @@ RULE = ("Hypothesis draws a meshed netgen.grid network (1-3 voltage levels, 4-16
         "0.5..1000), an equivalent type (ward/xward/rei, rei with drawn sgen/load/gen_separate) and a region: BFS ball (radius "
         "0-2) around a drawn supplied bus, boundary = frontier of the ball inside ('inner') or outside ('outer'), all internal "
         "buses or only the seed bus handed over, boundary handed over with/without the buses fused to it by bus-bus switches. "
-        "Mode 'clean' (about half of the cases) stays inside the shapes get_equivalent handles; every other mode adds exactly ONE "
-        "feature family to it: slack generator, bus-bus switches, impedance switches, open line/trafo switches + out-of-service "
-        "elements, ZIP loads, storage/motor/scaling, ward/xward elements, rei with several element kinds at one bus, rei with "
-        "asymmetric impedances, phase-shifting transformers (ward/xward only), boundary buses without external neighbour, "
-        "three-winding transformers. "
+        "Mode 'clean' (about half of the cases) stays inside the shapes get_equivalent handles, including everything repaired by the "
+        "fix commits 68f66ef10..14c4134fa: slack generators, several gens per bus, gen_separate=False, asymmetric impedances, "
+        "out-of-service branches / bus elements, motors, scaling, external ext_grids, and (for ward/xward) ward, xward and storage "
+        "elements anywhere. Every other mode adds exactly ONE feature family with a known finding (C28-K01..K15): bus-bus "
+        "switches, impedance switches, open line/trafo switches, ZIP loads, rei + storage, rei + ward/xward elements, rei with "
+        "several element kinds at one bus, phase-shifting transformers (ward/xward only), boundary buses without external "
+        "neighbour, three-winding transformers. "
         "Oracle: the expected internal/boundary/external bus groups are computed by own graph code (incl. the move of external "
         "slack buses to the boundary when no slack is retained); get_equivalent(return_internal=True) must not raise (other than "
         "LoadflowNotConverged), must keep every internal and boundary bus, and runpp(calculate_voltage_angles=True, dc init, tight "
         "tolerance) on the returned net must give vm_pu / va_degree at these buses equal to the original within 1e-6 p.u. / 1e-6 "
         "degree (a deviation within 100x the tolerance is re-evaluated with a tight-tolerance runpp_fct before it counts); input "
         "tables (oracles.snapshot) and result tables of the original net are unchanged, also when get_equivalent raises. "
-        "A failure signature names the first matching root-cause fact of the input (facts()) or 'other'. "
+        "A failure signature names the first matching KNOWN root-cause fact of the input (facts()) or 'other'; repaired shapes have "
+        "no fact, so a regression of a fix is a VIOLATION. "
         "Non-trivial = an equivalent was built and compared and the external area holds >= 1 in-service generation element "
         "(sgen/gen/ext_grid) and >= 1 in-service consumption element (load/motor/storage/ward/xward/shunt); distinct by case hash.")
 ASSUMPTIONS = ["tolerance 1e-6 p.u. / 1e-6 degree (doc/gridequivalent/gridequivalent_example.rst: 'smaller than 1e-6 pu or degree'); "
@@ -84,12 +88,14 @@ LEVEL_SETS_1 = [[110.0], [110.0], [20.0], [10.0], [220.0]]
 LEVEL_SETS_2 = [[110.0, 20.0], [220.0, 110.0], [380.0, 110.0], [110.0, 10.0], [110.0, 20.0, 0.4], [220.0, 110.0, 10.0]]
 LEVEL_SETS_3 = [[110.0, 20.0, 0.4], [380.0, 110.0, 20.0], [220.0, 110.0, 10.0]]
 
-KINDS = {"load": 6, "sgen": 3, "gen": 2, "storage": 0, "shunt": 1, "ward": 0, "xward": 0, "motor": 0,
+KINDS = {"load": 6, "sgen": 3, "gen": 3, "storage": 0, "shunt": 1, "ward": 0, "xward": 0, "motor": 1,
          "asymmetric_load": 0, "asymmetric_sgen": 0}
-BASE = dict(level_sets=LEVEL_SETS_1 + LEVEL_SETS_2, nb_level=(4, 9), nb_max=16, extra_branches=(1, 3), oos=0.0,
-            switches=False, switch_z=False, noslack_island=False, dcline=False, zip=False, trafo3w=False, scaling=False,
+# ward / xward equivalents also handle ward, xward and storage elements anywhere (rei: known findings, own modes)
+KINDS_W = dict(KINDS, storage=1, ward=1, xward=1)
+BASE = dict(level_sets=LEVEL_SETS_1 + LEVEL_SETS_2, nb_level=(4, 9), nb_max=16, extra_branches=(1, 3), oos=0.08,
+            switches=False, switch_z=False, noslack_island=False, dcline=False, zip=False, trafo3w=False, scaling=True,
             second_slack=True, slack_gen=True, shifts=(0.0,), tap_types=(None, "Ratio", "Symmetrical"), custom_index=True,
-            branch_kinds={"line": 9, "impedance": 1, "bb": 0}, bus_kinds=KINDS)
+            branch_kinds={"line": 8, "impedance": 2, "bb": 0}, bus_kinds=KINDS)
 
 
 def _prof(**kw):
@@ -98,39 +104,60 @@ def _prof(**kw):
     return netgen.profile(**d)
 
 
-# "clean" = the shapes get_equivalent is written for; every other mode adds ONE family of features to it
+# "clean" = the shapes get_equivalent handles (incl. everything repaired by the fix commits 68f66ef10..14c4134fa: slack gens,
+# several gens per bus, gen_separate=False, asymmetric impedances, out-of-service elements, motors, (x)ward elements for
+# ward/xward); every other mode adds ONE family of features with a known finding to it
 MODES = {
     "clean": _prof(),
-    "slack-gen": _prof(),
     "bus-bus-switch": _prof(switches=True, open_prob=0.0, branch_kinds={"line": 8, "impedance": 1, "bb": 3}),
     "impedance-switch": _prof(switches=True, switch_z=True, open_prob=0.0, branch_kinds={"line": 8, "impedance": 1, "bb": 3}),
-    "open-switch+oos": _prof(switches=True, open_prob=0.3, oos=0.12),
+    "open-switch": _prof(switches=True, open_prob=0.3),
     "zip": _prof(zip=True),
-    "storage+motor+scaling": _prof(scaling=True, bus_kinds=dict(KINDS, storage=3, motor=3)),
-    "ward+xward-elements": _prof(bus_kinds=dict(KINDS, ward=3, xward=3)),
+    "rei-storage": _prof(bus_kinds=dict(KINDS, storage=3)),
+    "rei-ward+xward-elements": _prof(bus_kinds=dict(KINDS, ward=3, xward=3)),
     "rei-mixed-bus": _prof(),
-    "rei-asymmetric-impedance": _prof(branch_kinds={"line": 7, "impedance": 3, "bb": 0}),
-    "rei-integrated-gens": _prof(bus_kinds=dict(KINDS, gen=5)),
     "phase-shift": _prof(level_sets=LEVEL_SETS_2, shifts=(30.0, 150.0, 0.0, -30.0)),
     "detached-boundary": _prof(),
     "trafo3w": _prof(level_sets=LEVEL_SETS_3, trafo3w=True, nb_level=(2, 6)),
 }
-MODE_WEIGHTS = {m: (12 if m == "clean" else 1) for m in MODES}
+CLEAN_W = _prof(bus_kinds=KINDS_W)
+REI_MODES = ("rei-storage", "rei-ward+xward-elements", "rei-mixed-bus")
+MODE_WEIGHTS = {m: (10 if m == "clean" else 1) for m in MODES}
 REI_KIND = {"gen": "gen", "ext_grid": "gen", "sgen": "sgen", "load": "load"}
+
+
+def _is_bridge(recipe, branch):
+    """does the recipe graph (all branches but `branch`, closed bus-bus switches) fall apart without this branch?"""
+    n = len(recipe["buses"])
+    adj = {i: set() for i in range(n)}
+    for e in recipe["el"]:
+        if e is branch:
+            continue
+        ends = [e[k] for k in ("from_bus", "to_bus", "hv_bus", "mv_bus", "lv_bus") if k in e]
+        if e["t"] == "switch" and e["et"] == "b" and e.get("closed", True):
+            ends = [e["bus"], e["element"]]
+        for a in ends[1:]:
+            adj[ends[0]].add(a), adj[a].add(ends[0])
+    return len(_closure([0], adj)) < n
 
 
 def _tame(recipe, mode, eq_type):
     """keep the recipe inside the domain get_equivalent is written for (see ASSUMPTIONS)"""
     slack_buses = set()
-    gen_buses = set()
     kind_at = {}
+    oos_branch = False
     out = []
     for b in recipe["buses"]:
         b.pop("in_service", None)               # inactive buses: "suggested to remove them" before get_equivalent
     for e in recipe["el"]:
         e.pop("tap_step_degree", None)          # tap phase shifters: same limitation as shift_degree
-        if e["t"] == "gen" and e.get("slack") and mode != "slack-gen":
-            e = {"t": "ext_grid", "bus": e["bus"], "vm_pu": e["vm_pu"], "va_degree": 0.0}
+        if e["t"] in ("line", "impedance", "trafo", "trafo3w") and e.get("in_service") is False:
+            # netgen draws the flag far more often than profile["oos"] (floats(0, 1) < p); every out-of-service bridge leaves
+            # unsupplied buses (skipped, see ASSUMPTIONS): at most one out-of-service branch per network, and no bridge
+            if oos_branch or _is_bridge(recipe, e):
+                e.pop("in_service")
+            else:
+                oos_branch = True
         if e["t"] in ("gen", "ext_grid"):
             # setpoints 0.97..1.04 at neighbouring buses of a short line drive circulating reactive power of 10-100x the line
             # rating; the sub-problems get_equivalent solves (boundary voltages fixed) then have several solutions and its
@@ -141,16 +168,10 @@ def _tame(recipe, mode, eq_type):
                 continue
             slack_buses.add(e["bus"])
             e.pop("in_service", None)
-        if eq_type == "rei" and mode != "rei-asymmetric-impedance" and e["t"] == "impedance":
-            e.pop("rtf_pu", None), e.pop("xtf_pu", None)    # known finding rei/asymmetric-impedance
         if mode == "impedance-switch" and e["t"] == "switch" and e["et"] == "b" and "z_ohm" not in e:
             e["z_ohm"] = round(0.02 * recipe["buses"][e["bus"]]["vn_kv"] ** 2 / netgen.LEVELS[recipe["buses"][e["bus"]]["vn_kv"]]["s"], 6)
-        if eq_type == "rei" and mode != "rei-integrated-gens" and e["t"] == "gen" and not e.get("slack"):
-            if e["bus"] in gen_buses:           # known finding rei-gen-aggregated-from-several-gens
-                continue
-            gen_buses.add(e["bus"])
         if eq_type == "rei" and mode != "rei-mixed-bus" and e["t"] in REI_KIND:
-            # one kind of REI power element per bus (several kinds at one external bus: known finding rei-eq-switch)
+            # one kind of REI power element per bus (several kinds at one external bus: known finding C28-K09)
             if kind_at.setdefault(e["bus"], REI_KIND[e["t"]]) != REI_KIND[e["t"]]:
                 continue
         out.append(e)
@@ -171,22 +192,19 @@ def _case(draw, tier, mode=None):
         pool = [m for m in names for _ in range(MODE_WEIGHTS[m])]
         bits = draw(st.randoms(use_true_random=False)).getrandbits(64)
         mode = pool[int(hashlib.sha1(str(bits).encode()).hexdigest(), 16) % len(pool)]
-    if mode in ("rei-mixed-bus", "rei-asymmetric-impedance", "rei-integrated-gens"):
+    if mode in REI_MODES:
         eq_type = "rei"
     elif mode in ("phase-shift", "detached-boundary"):
         eq_type = draw(st.sampled_from(["ward", "xward"]))
     else:
         eq_type = draw(st.sampled_from(["ward", "xward", "rei"]))
-    recipe = _tame(draw(netgen.grid(MODES[mode])), mode, eq_type)
+    profile = CLEAN_W if mode == "clean" and eq_type != "rei" else MODES[mode]
+    recipe = _tame(draw(netgen.grid(profile)), mode, eq_type)
     kw = {}
     if eq_type == "rei":
         for k in ("sgen_separate", "load_separate", "gen_separate"):
             if draw(st.integers(0, 2)):
                 kw[k] = draw(st.booleans())
-        if mode == "rei-integrated-gens":
-            kw["gen_separate"] = False
-        elif kw.get("gen_separate") is False:
-            kw["gen_separate"] = True           # known finding rei-gen-aggregated-from-several-gens
     case = {"recipe": recipe, "mode": mode}
     case.update(region)
     case.update({"prune": mode != "detached-boundary", "eq_type": eq_type, "kw": kw})
@@ -263,16 +281,14 @@ def regions(net, case):
         return None
     sup = set(supplied)
     adj = {b: adj[b] & sup for b in supplied}
-    bb = {b: bb[b] & sup for b in supplied}
+    bb0 = {b: bb0[b] & sup for b in supplied}   # closure of the boundary: switches without impedance only (one busbar); a bus
+    # behind a closed switch with z_ohm > 0 is an ordinary neighbour (fix commits of branch c28-fixes-b)
     slack = set(net.ext_grid.bus[net.ext_grid.in_service].values) | set(net.gen.bus[net.gen.in_service & net.gen.slack].values)
     slack &= sup
     for k in range(len(supplied)):          # the drawn seed bus first, then the following ones
-        reg = _split(case, supplied[(case["seed"] + k) % len(supplied)], sup, adj, bb, slack)
+        reg = _split(case, supplied[(case["seed"] + k) % len(supplied)], sup, adj, bb0, slack)
         if reg is not None:
             reg["fused"] = {int(b): int(min(_closure([b], bb0))) for b in reg["boundary"]}
-            zsw = net.switch[(net.switch.et == "b") & net.switch.closed & (net.switch.z_ohm.fillna(0.0) > 0)]
-            reg["z_switch_at_boundary"] = bool((zsw.bus.isin(reg["boundary"]) & zsw.element.isin(reg["boundary"])).any())
-            reg["z_switch_external"] = bool((zsw.bus.isin(reg["external"]) | zsw.element.isin(reg["external"])).any())
             return reg
     return None
 
@@ -348,14 +364,8 @@ def _angle_diff(a, b):
 
 
 # root causes that do not depend on the equivalent type get one signature for all types they apply to
-SCOPE = {"phase-shift-trafo": "ward+xward", "slack-gen-at-boundary": "ward+xward", "fused-boundary-buses-given": "ward+xward",
-         "xward-element-in-external-area/sn_mva!=1": "ward+xward", "impedance-switch-between-boundary-buses": "any",
-         "impedance-switch-at-external-bus": "any",
+SCOPE = {"phase-shift-trafo-at-external-bus": "ward+xward", "fused-boundary-buses-given": "ward+xward",
          "open-ended-branch-between-internal-and-external-bus": "any"}
-
-
-RAISED_ANY = {"in-service-gen-behind-another-gen-at-boundary-bus"}
-SCOPE["in-service-gen-behind-another-gen-at-boundary-bus"] = "any"
 
 
 def _sig(kind, eq_type, f):
@@ -364,13 +374,19 @@ def _sig(kind, eq_type, f):
 
 
 def facts(net, reg, case, net_eq=None):
-    """facts about the input (and the returned equivalent) that name the known root causes, in priority order"""
+    """facts about the input (and the returned equivalent) that name the KNOWN, unrepaired root causes (known_findings.json
+    C28-K01..K15), in priority order. Shapes repaired by the fix commits 68f66ef10..14c4134fa (slack gen at the boundary,
+    (x)ward element at a boundary bus for ward/xward, asymmetric impedances, aggregated gens, gen + ext_grid at one bus, ...)
+    have no fact: a failure there gets the signature .../other and is a VIOLATION."""
     eq = case["eq_type"]
     I, B, E = set(reg["internal"]), set(reg["boundary"]), set(reg["external"])
     f = []
-    if (net.trafo.in_service & (net.trafo.shift_degree != 0)).any() or \
-            (net.trafo3w.in_service & ((net.trafo3w.shift_mv_degree != 0) | (net.trafo3w.shift_lv_degree != 0))).any():
-        f.append("phase-shift-trafo")
+    # a transformer of the internal area is kept as it is: only phase shifters with a terminal in the external area matter
+    tr, t3 = net.trafo, net.trafo3w
+    if (tr.in_service & (tr.shift_degree != 0) & (tr.hv_bus.isin(E) | tr.lv_bus.isin(E))).any() or \
+            (t3.in_service & ((t3.shift_mv_degree != 0) | (t3.shift_lv_degree != 0)) &
+             (t3.hv_bus.isin(E) | t3.mv_bus.isin(E) | t3.lv_bus.isin(E))).any():
+        f.append("phase-shift-trafo-at-external-bus")
     if eq == "xward":
         # the xward method grounds the external PV buses (Y = 1e8): parts of the retained network that are coupled to the
         # reference only through external PV buses lose the coupling, their angle is left (nearly) undetermined
@@ -380,35 +396,13 @@ def facts(net, reg, case, net_eq=None):
         slack = (set(net.ext_grid.bus[net.ext_grid.in_service].values) | set(net.gen.bus[net.gen.in_service & net.gen.slack].values)) & (I | B)
         if (I | B) - _closure(slack, adj, allowed=allowed):
             f.append("xward-boundary-buses-coupled-only-through-external-pv-buses")
-    if len(net.gen) and (net.gen.slack & net.gen.in_service & net.gen.bus.isin(B)).any() and eq != "rei":
-        f.append("slack-gen-at-boundary")
     if eq != "rei" and len(reg["boundary_given"]) > len({reg["fused"][b] for b in reg["boundary_given"]}):
         f.append("fused-boundary-buses-given")
-    if len(_at(net, "xward", E)):
-        if eq == "rei":
-            f.append("xward-element-in-external-area")
-        elif net.sn_mva != 1:
-            f.append("xward-element-in-external-area/sn_mva!=1")
-    if eq != "rei" and len(_at(net, eq, B)):
-        f.append("%s-element-at-boundary-bus" % eq)
+    if eq == "rei" and len(_at(net, "xward", E)):
+        f.append("xward-element-in-external-area")
     if eq == "rei" and (len(_at(net, "ward", B)) or len(_at(net, "xward", B))):
         f.append("ward-or-xward-element-at-boundary-bus")
-    if reg["z_switch_at_boundary"]:
-        f.append("impedance-switch-between-boundary-buses")
-    if reg["z_switch_external"]:
-        f.append("impedance-switch-at-external-bus")
-    if eq == "rei" and len(net.impedance):
-        im = net.impedance[net.impedance.in_service & ((net.impedance.rft_pu != net.impedance.rtf_pu) | (net.impedance.xft_pu != net.impedance.xtf_pu))]
-        if (im.from_bus.isin(E) | im.to_bus.isin(E)).any():
-            f.append("asymmetric-impedance-at-external-bus")
     if eq == "rei":
-        # the REI generator of several net.gen rows gets the SUM of their numeric columns, vm_pu included
-        gen_ext = net.gen[net.gen.bus.isin(E)] if len(net.gen) else net.gen
-        integrated = case["kw"].get("gen_separate", True) is False
-        if len(gen_ext) > 1 and (integrated or gen_ext.bus.duplicated().any()):
-            f.append("rei-gen-aggregated-from-several-gens/vm_pu-summed")
-        if integrated and set(_at(net, "gen", E).bus.values) & set(_at(net, "ext_grid", E).bus.values):
-            f.append("gen_separate=False/gen-and-ext_grid-at-one-external-bus")
         if len(_at(net, "load", E, lambda t: (t.const_z_p_percent != 0) | (t.const_i_p_percent != 0) |
                    (t.const_z_q_percent != 0) | (t.const_i_q_percent != 0))):
             f.append("zip-load-in-external-area")
@@ -459,35 +453,18 @@ def _shunt_admittance_in(net, E):
 
 
 def _cause(net, reg, case, e):
-    """root-cause class of an exception of get_equivalent from facts about the input (known shapes), else 'other'"""
+    """root-cause class of an exception of get_equivalent: a known (unrepaired) shape of facts() that explains an exception at
+    this site, else 'other' (repaired shapes - IndexError in _create_net_zpbn, ValueError in add_ext_grids_to_boundaries /
+    _replace_external_area_by_(x)wards - are deliberately not classified any more)"""
     where = exc_sig(e)
-    E = set(reg["external"])
     f = facts(net, reg, case)
-    if where == "IndexError@grid_equivalents/rei_generation.py:_create_net_zpbn":
-        # an REI bus of a kind (gen/load) is created for ext_grids / motors, but net[kind] has no row at an external bus
-        gen_like = len(_at(net, "ext_grid", E)) or len(_at(net, "xward", E))
-        if gen_like and not (len(net.gen) and net.gen.bus.isin(E).any()):
-            return "rei-kind-without-original-element/gen"
-        mot = set(_at(net, "motor", E).bus.values)
-        if mot and (not (len(net.load) and net.load.bus.isin(E).any()) or
-                    (case["kw"].get("load_separate", False) and mot - set(net.load.bus.values))):
-            return "rei-kind-without-original-element/load"
-    if where == "ValueError@grid_equivalents/auxiliary.py:add_ext_grids_to_boundaries" and len(net.gen):
-        # vm_pu of the auxiliary ext_grids: in-service gens at boundary buses vs. gens that are not a duplicate of ANY earlier gen
-        first = ~net.gen.bus.duplicated()
-        if (net.gen.bus.isin(reg["boundary"]) & net.gen.in_service & ~first).any():
-            return "in-service-gen-behind-another-gen-at-boundary-bus"
-    want = {"ValueError@grid_equivalents/ward_generation.py:_replace_external_area_by_wards": ("slack-gen-at-boundary", "ward-element-at-boundary-bus"),
-            "ValueError@grid_equivalents/ward_generation.py:_replace_external_area_by_xwards": ("slack-gen-at-boundary", "xward-element-at-boundary-bus"),
-            "ValueError@grid_equivalents/ward_generation.py:_calculate_ward_and_impedance_parameters": ("fused-boundary-buses-given",),
+    want = {"ValueError@grid_equivalents/ward_generation.py:_calculate_ward_and_impedance_parameters": ("fused-boundary-buses-given",),
             "ValueError@build_bus.py:_calc_pq_elements_and_add_on_ppc": ("zip-load-in-external-area",),
             "FloatingPointError@pypower/makeYbus.py:branch_vectors": ("boundary-bus-without-external-neighbour",
                                                                       "external-area-without-shunt-admittance")}
     for k in want.get(where, ()):
         if k in f:
             return k
-    if "phase-shift-trafo" in f:
-        return "phase-shift-trafo"
     return "other"
 
 
@@ -495,6 +472,9 @@ def check(case):
     import pandapower as pp
     from pandapower.grid_equivalents import get_equivalent
     res = Result()
+    if not isinstance(case, dict) or "recipe" not in case:      # replays/C28/KNOWN.json (index of the witnesses) is not a case
+        res.skipped = "not-a-case"
+        return res
     recipe = case["recipe"]
     eq_type = case["eq_type"]
     net, maps = netgen.build(recipe)
@@ -550,7 +530,7 @@ def check(case):
             res.skipped = "equivalent-not-converged"
         else:
             cause = _cause(net, reg, case, raised)
-            res.fail("raised/%s/%s/%s" % (SCOPE.get(cause, eq_type) if cause in RAISED_ANY else eq_type, exc_sig(raised), cause),
+            res.fail("raised/%s/%s/%s" % (eq_type, exc_sig(raised), cause),
                      error=repr(raised)[:300], regions=_short(reg), kw=case["kw"])
         return res
     if net_eq is None:
@@ -563,8 +543,15 @@ def check(case):
             pp.runpp(net_eq, calculate_voltage_angles=True, tolerance_mva=pf_tol(sn), max_iteration=40)
     except Exception as e:
         kind, what = pf_outcome(e)
-        res.fail(_sig("eq-pf-failed/" + what, eq_type, f), error=repr(e)[:300], regions=_short(reg))
-        return res
+        try:        # "a power flow": the flat start counts as well (see other-solution-from-dc-init below)
+            if what != "not-converged":
+                raise
+            with silence():
+                pp.runpp(net_eq, calculate_voltage_angles=True, tolerance_mva=pf_tol(sn), max_iteration=40, init="flat")
+            res.label("dc-init-not-converged")
+        except Exception:
+            res.fail(_sig("eq-pf-failed/" + what, eq_type, f), error=repr(e)[:300], regions=_short(reg))
+            return res
     missing, worst = _compare(net, net_eq, reg)
     if missing:
         res.fail("bus-missing-in-equivalent/" + eq_type, missing=missing, regions=_short(reg))
